@@ -22,6 +22,14 @@ Model: `Model/Convert.lean` (`convertTo`, `convertTwice`, `parseBytes`, `estimat
   (`convert_idempotent_partial`), in particular for EVERY input whose MATH conversion contains a non-ASCII byte
   (`convert_idempotent_math_non_ascii`, from `ascii_lexer_rejects_non_ascii`).
 * Part 4 `estimateSyntax_spec`, `hintOf_spec`.
+* Part 5 top-level forms (function definitions, global declarations): `convert_of_printed_top`, `convert_there_and_back_same_top`.
+* Part 6 idempotence towards ASCII through parser-FAILURE theorems: `math_parser_rejects_leading_backslash` (a text starting with
+  `\`), `parser_rejects_adjacent_operands` (a necessary condition for acceptance: without a quantifier token no identifier /
+  literal is directly followed by the start of an operand; `Lemmas/ParseReject.lean`), `math_parser_rejects_adjacent_operands`
+  (texts of ASCII units, decidable condition on the MATH token stream) ⇒ `convert_idempotent_ascii_adjacent` (all inputs),
+  `convert_idempotent_ascii_fragment_partial1` (formulas starting with `¬ ∀ ∃`, unconditional), `…_partial2` / `…_top_partial`
+  (the condition checked on the printed text). Open: that EVERY fragment tree with a backslash word meets the condition
+  (`convert_idempotent_ascii_fragment_statement`).
 -/
 namespace CCVerif.C05
 open CCVerif.Syntax CCVerif.Generated CCVerif.Lexer CCVerif.Parser CCVerif.Printer CCVerif.Convert CCVerif.ConvertL
@@ -505,12 +513,14 @@ example : parse .math (units " \\A x \\in X1 x \\noteq {}") = none :=
 /-- kinds whose ASCII spelling is an operator word with a backslash -/
 def backslashKind (k : Tok) : Bool := (str .ascii k).contains 92
 
-/-- the CONJECTURED general statement (NOT proved, not refuted; the instances below are kernel-evaluated): conversion to ASCII is
-idempotent on the MATH text of every fragment tree that contains at least one operator spelled with a backslash in ASCII. Its
-proof needs the MATH reading of the whole ASCII text (a second chain of tokens `\`, `kw`, …) and a necessary condition for
-acceptance by the parser (an identifier is never followed by the start of an operand unless a quantifier precedes; the MATH
-reading of an ASCII text has no quantifier token). The boundary: `convert_not_idempotent_star` (`X1×X2`, no backslash word at
-all), `convert_not_idempotent_empty_definition` (`X1:==`, outside `E3`: the word ends the text). -/
+/-- the CONJECTURED general statement (NOT proved, not refuted; kernel-evaluated instances at the end): conversion to ASCII is
+idempotent on the MATH text of every fragment tree that contains at least one operator spelled with a backslash in ASCII. Proved
+below: the parser side in full (`parser_rejects_adjacent_operands`, `math_parser_rejects_adjacent_operands`), so the statement is
+reduced to a DECIDABLE condition on the MATH token stream of the ASCII text (`convert_idempotent_ascii_fragment_partial2`); and
+unconditionally when the word comes first (`…_partial1`). Missing: the MATH reading of the ASCII text of an ARBITRARY fragment
+tree (a second chain of tokens: the last `\kw` of the text is read as `\`, `kw` and is followed by the first token of an operand).
+The boundary: `convert_not_idempotent_star` (`X1×X2`, no backslash word at all), `convert_not_idempotent_empty_definition`
+(`X1:==`, outside `E3`: the word ends the text). -/
 def convert_idempotent_ascii_fragment_statement : Prop :=
   ∀ (t : Ast) (e : E3), FragmentTree .math t e → FragmentTree .ascii t e →
     e.toks.any (fun tok => backslashKind tok.id) = true →
@@ -596,6 +606,125 @@ example : ∀ e ∈ [sampleNegAnd, sampleQ "x" "q"],
   · have h := sampleQ_facts
     exact convert_idempotent_ascii_fragment_prefix _ (sampleQ "x" "q") ⟨by rfl, h.2.2.2.1, Or.inr h.2.2.2.2.1, h.2.2.2.2.2.1⟩
       ⟨by rfl, h.2.2.2.1, Or.inr h.2.2.2.2.1, h.2.2.2.2.2.2.1⟩ h.2.2.2.2.2.2.2.1
+
+/-! ### rejection by two adjacent operands (`Lemmas/ParseReject.lean`) -/
+
+/-- **parser_rejects_adjacent_operands** (necessary condition for acceptance, ALL token streams, either syntax): in a token
+stream the parser model accepts and whose part up to END contains no quantifier token, no operand-ENDING token (`PR.ender`: a
+local / global / radical identifier, an integer, `Z`, `∅`) is directly followed by an operand-STARTING token (`PR.starter`:
+identifier, literal, `(`, `{`, `[`, `card bool debool red Pr pr Fi ℬ D R I`, `¬`, `∀`, `∃`). Production by production
+(`PR.All`, induction on the fuel over all eleven mutually recursive sub-parsers): whatever the parser consumes directly after
+a finished sub-phrase is an operator, a separator or a closing bracket — except the body of a quantifier, which follows its
+domain directly (`∀x∈X1 x=x`), hence the hypothesis. -/
+theorem parser_rejects_adjacent_operands (ts : Toks) (t : Ast) (h : parseToks ts = some t)
+    (hq : ∀ x ∈ CCVerif.PR.bodyOf ts, CCVerif.PR.isQ x.id = false) : CCVerif.PR.goodL (CCVerif.PR.bodyOf ts) = true := by
+  cases hg : CCVerif.PR.goodL (CCVerif.PR.bodyOf ts) with
+  | true => rfl
+  | false => rw [CCVerif.PR.parseToks_reject ts hq hg] at h; cases h
+
+/-- the hypothesis about quantifiers is needed: `∀x∈X1 x=x` is accepted and has `X1` directly followed by `x` -/
+example : (parse .math (units "∀x∈X1 x=x")).isSome = true ∧
+    ((lex .math (units "∀x∈X1 x=x")).map fun ts => CCVerif.PR.goodL (CCVerif.PR.bodyOf ts)) = some false := by
+  decide +kernel
+
+/-- **math_parser_rejects_adjacent_operands** (parser failure, every text of ASCII units; DECIDABLE condition
+`ConvertI.adjacentOperands`): when the MATH token stream of the text has an operand-ending token directly followed by an
+operand-starting token — or an INTERRUPT token, or the scanner has no applicable rule — the MATH parser rejects the text. A text of
+ASCII units has no quantifier token in its MATH reading (`∀ ∃` come from non-ASCII literals only, regenerated rule table). This is
+what happens to an ASCII operator word: `a \in X1` is read as `a`, `\`, `in`, `X1` — the identifier `in` directly followed by
+`X1`. -/
+theorem math_parser_rejects_adjacent_operands (u : List Nat) (hu : ∀ c ∈ u, c < 128)
+    (h : CCVerif.ConvertI.adjacentOperands .math u = true) : parse .math u = none :=
+  CCVerif.ConvertI.math_rejects_adjacent u hu h
+
+private theorem idem_of_reject (x asc : List Nat) (t2 : Ast) (hc1 : convertTo .ascii x = .text (bytesOf asc))
+    (hparse2 : parse .ascii asc = some t2) (hrej : parse .math asc = none) : convertTwice .ascii x = convertTo .ascii x := by
+  refine convert_idempotent_partial .ascii _ _ hc1 ?_
+  have hsc : ∀ c ∈ asc, isScalar c := fun c hc =>
+    Or.inl (by have := okUnit_ascii (parse_units .ascii _ t2 hparse2 c hc); omega)
+  show (decode (bytesOf asc)).map (parse .math) = some none
+  rw [show bytesOf asc = CCVerif.Strings.encode asc from rfl, decode_encode _ hsc, Option.map_some, hrej]
+
+/-- **convert_idempotent_ascii_adjacent** (ALL inputs): when the result of a conversion to ASCII consists of ASCII bytes and its
+MATH reading has two adjacent operands (decidable, `ConvertI.adjacentOperands`), converting it to ASCII again changes nothing. -/
+theorem convert_idempotent_ascii_adjacent (x once : List Nat) (h1 : convertTo .ascii x = .text once)
+    (hasc : ∀ b ∈ once, b < 128) (hadj : CCVerif.ConvertI.adjacentOperands .math once = true) :
+    convertTwice .ascii x = convertTo .ascii x := by
+  refine convert_idempotent_partial .ascii x once h1 ?_
+  have hsc : ∀ c ∈ once, isScalar c := fun c hc => Or.inl (by have := hasc c hc; omega)
+  show (decode once).map (parse .math) = some none
+  have he : once = CCVerif.Strings.encode once := (encode_ascii once hasc).symm
+  rw [he, decode_encode _ hsc, Option.map_some, math_parser_rejects_adjacent_operands once hasc hadj]
+
+/-- non-vacuity: `a∈X1` → `a \in X1`, read by MATH as `a \ in X1` -/
+example : convertTwice .ascii (bytesOf (units "a∈X1")) = convertTo .ascii (bytesOf (units "a∈X1")) :=
+  convert_idempotent_ascii_adjacent _ (bytesOf (units "a \\in X1")) (by decide +kernel) (by decide +kernel) (by decide +kernel)
+
+/-- **convert_idempotent_ascii_fragment_partial2** (fragment trees, the backslash word ANYWHERE, the condition checked on the
+printed text): `t` a fragment tree with MATH-conformant leaves whose transliteration is a fragment tree with ASCII-conformant
+leaves; if the MATH reading of its ASCII text has two adjacent operands, conversion to ASCII is idempotent on its MATH text. What
+is NOT proved is that EVERY fragment tree with a backslash word meets the condition (`convert_idempotent_ascii_fragment_statement`);
+on a given tree it is decided by evaluation. -/
+theorem convert_idempotent_ascii_fragment_partial2 (t : Ast) (e e' : E3) (h : FragmentTree .math t e)
+    (ha : FragmentTree .ascii (translit .ascii t) e') (asc : List Nat) (hp : print .ascii t = some asc)
+    (hadj : CCVerif.ConvertI.adjacentOperands .math asc = true) :
+    ∃ text, print .math t = some text ∧ convertTo .ascii (bytesOf text) = .text (bytesOf asc) ∧
+      convertTwice .ascii (bytesOf text) = convertTo .ascii (bytesOf text) := by
+  obtain ⟨asc', t2, hpa', hparse2, _⟩ := roundtrip_erA .ascii _ e' ha.1 ha.2.1 ha.2.2.1 ha.2.2.2
+  rw [print_translit, hp] at hpa'
+  have : asc = asc' := Option.some.inj hpa'
+  subst this
+  obtain ⟨text, hpt, hc1⟩ := convert_of_printed .math t e h _ hp
+  have hu : ∀ c ∈ asc, c < 128 := fun c hc => okUnit_ascii (parse_units .ascii _ t2 hparse2 c hc)
+  exact ⟨text, hpt, hc1, idem_of_reject _ asc t2 hc1 hparse2 (math_parser_rejects_adjacent_operands asc hu hadj)⟩
+
+/-- **convert_idempotent_ascii_top_partial** (definitions): the same for the top-level forms (leaves conformant to both lexers) -
+function definitions and global declarations with a body. -/
+theorem convert_idempotent_ascii_top_partial (t : Ast) (d : PP3.Top) (hm : FragmentTop .math t d) (ha : FragmentTop .ascii t d)
+    (asc : List Nat) (hp : print .ascii t = some asc) (hadj : CCVerif.ConvertI.adjacentOperands .math asc = true) :
+    ∃ text, print .math t = some text ∧ convertTo .ascii (bytesOf text) = .text (bytesOf asc) ∧
+      convertTwice .ascii (bytesOf text) = convertTo .ascii (bytesOf text) := by
+  obtain ⟨asc', t2, hpa', hparse2, _⟩ := CCVerif.PP3.top_roundtrip_erA .ascii t d ha.1 ha.2.1 ha.2.2
+  rw [hp] at hpa'
+  have : asc = asc' := Option.some.inj hpa'
+  subst this
+  obtain ⟨text, hpt, hc1⟩ := convert_of_printed_top .math t d hm _ hp
+  have hu : ∀ c ∈ asc, c < 128 := fun c hc => okUnit_ascii (parse_units .ascii _ t2 hparse2 c hc)
+  exact ⟨text, hpt, hc1, idem_of_reject _ asc t2 hc1 hparse2 (math_parser_rejects_adjacent_operands asc hu hadj)⟩
+
+/-- non-vacuity: the sample `I{(x, y) | x:∈X1; …}∪X2` of `Properties/C05.lean` (backslash words in the middle) and the Greek formula
+`α∈X1 & ∀ξ∈α ξ≠∅` -/
+example : (∃ text, print .math sampleE3.ast = some text ∧
+      convertTwice .ascii (bytesOf text) = convertTo .ascii (bytesOf text)) ∧
+    (∃ text, print .math sampleGreek.ast = some text ∧
+      convertTwice .ascii (bytesOf text) = convertTo .ascii (bytesOf text)) := by
+  have h := fragment3_nonvacuous
+  have g := sampleGreek_facts
+  have hp3 : ∃ asc, print .ascii sampleE3.ast = some asc ∧ CCVerif.ConvertI.adjacentOperands .math asc = true := by
+    decide +kernel
+  obtain ⟨asc, hp, hadj⟩ := hp3
+  obtain ⟨text, h1, _, h2⟩ := convert_idempotent_ascii_fragment_partial2 _ sampleE3 sampleE3 ⟨sampleE3_erA, h.1, Or.inl h.2.1, h.2.2.1⟩
+    ⟨by rfl, h.1, Or.inl h.2.1, h.2.2.2.1⟩ asc hp hadj
+  obtain ⟨text', h1', _, h2'⟩ := convert_idempotent_ascii_fragment_partial2 _ sampleGreek sampleGreekT
+    ⟨g.2.2.2.2.1, g.1, Or.inr g.2.1, g.2.2.1⟩
+    ⟨g.2.2.2.2.2.2.2.2.2.2.1, g.2.2.2.2.2.2.1, Or.inr g.2.2.2.2.2.2.2.1, g.2.2.2.2.2.2.2.2.2.1⟩ _ g.2.2.2.2.2.2.2.2.2.2.2
+    (by decide +kernel)
+  exact ⟨⟨text, h1, h2⟩, ⟨text', h1', h2'⟩⟩
+
+/-- non-vacuity for definitions: `F1 :== [a∈ℬ(X1), b∈X1] b∈a` -/
+example : ∃ text, print .math (sampleTopIn "a" "b").ast = some text ∧
+    convertTwice .ascii (bytesOf text) = convertTo .ascii (bytesOf text) := by
+  have h := top_text_nonvacuous
+  obtain ⟨text, h1, _, h2⟩ := convert_idempotent_ascii_top_partial (sampleTopIn "a" "b").ast (sampleTopIn "a" "b") ⟨by rfl, h.2.2.2.1, h.2.2.2.2.1⟩
+    ⟨by rfl, h.2.2.2.1, h.2.2.2.2.2.1⟩ (units "F1 \\defexpr [a \\in B(X1), b \\in X1] b \\in a") (by decide +kernel)
+    (by decide +kernel)
+  exact ⟨text, h1, h2⟩
+
+/-- the boundary: the ASCII texts of the recorded counterexamples do NOT meet the condition (no adjacent operands: `X1*X2` is a
+MATH product, `X1 \defexpr ` is the set difference `X1 \ defexpr`) -/
+example : CCVerif.ConvertI.adjacentOperands .math (units "X1*X2") = false ∧
+    CCVerif.ConvertI.adjacentOperands .math (units "X1 \\defexpr ") = false := by
+  decide +kernel
 
 /-- kernel-evaluated instances of the unproved general statement (backslash word NOT in front): `a∈X1`, `X1∪X2∩X3`, the sample of
 `Properties/C05.lean`; and the boundary once more — no backslash word (`X1×X2`), word at the very end (`X1:==`) -/
